@@ -40,6 +40,13 @@ def run(ctx):
     check_function_names(ctx)
     check_case_typed(ctx, V)
     check_list_item_kinds(ctx)
+    # the written arguments, list items and operands include string literals, quoted names and comments next to them: those must reach
+    # the grouping engine as single tokens (the region rules of the lexer, shared with C05/C14)
+    from .. import rules_regions as RR
+    ctx.rule('R13.10', 'string literals, quoted names and comments are single tokens whatever they contain (region rules of the lexer)', floor=10)
+    RR.check_regions(ctx, 'R13.10', quick=True)
+    check_where_simulation(ctx)
+    check_cases_simulation(ctx)
     from .. import rules_tree as RT2
     ctx.rule('R13.5', 'grouping is total: no size/depth cut-off in the drivers and passes this property relies on', floor=1)
     RT2.check_recursion_coverage(ctx, 'R13.5', only={'group_where', 'group_identifier_list', 'group_functions', 'group_comparison', 'group_typed_literal', 'group_case', 'group_parenthesis', 'group_operator', 'group_aliased', 'group_as', 'group_identifier'})
@@ -404,3 +411,185 @@ def check_list_item_kinds(ctx):
             continue
         ctx.ob('R13.7', f'item:{label}', loc, f'a {label} next to a comma is accepted as a list item', ok,
                f'`valid` rejects it: `select a, <{label}> from t` (or with the item first) is not grouped into one IdentifierList, get_identifiers() is never reached')
+
+
+def check_where_simulation(ctx):
+    """The extent of a Where node decided on concrete token lists: group_where (its body, with TokenList.group_tokens and the look-ups it
+    calls) is interpreted on `select a from t where x = 1 <closer> ...` for every closing keyword of the statement, in a statement
+    and inside a parenthesis, with a second WHERE behind a UNION; the node must start at WHERE and end right before the closer (or at
+    the end of the list / in front of the closing parenthesis)."""
+    repo = ctx.repo
+    ctx.rule('R13.8', 'group_where interpreted on token lists: the Where node spans from WHERE up to, not including, the next closing keyword / the closing parenthesis / the end', floor=1)
+    g = repo.func('sqlparse.engine.grouping.group_where')
+    loc = f'{g.mod.relpath}:{g.node.lineno}'
+    where_cls = repo.classes.get('sqlparse.sql.Where')
+    classes = {k: repo.classes.get(f'sqlparse.sql.{v}') for k, v in (('S', 'Statement'), ('I', 'Identifier'), ('P', 'Parenthesis'), ('C', 'Comparison'))}
+    ctx.need(where_cls is not None and all(classes.values()), 'sqlparse.sql classes not found')
+    WSP, DML, KW, NAME, PUN, CMP, INT = (TT(('Text', 'Whitespace')), TT(('Keyword', 'DML')), TT(('Keyword',)), TT(('Name',)), TT(('Punctuation',)),
+                                         TT(('Operator', 'Comparison')), TT(('Literal', 'Number', 'Integer')))
+
+    def leaf(tt, v):
+        t_ = ME.AbsToken(repo, ttype=tt, value=v)
+        t_.parent = None
+        return t_
+
+    def group(cls, kids):
+        gr = ME.AbsToken(repo, cls=cls)
+        gr.tokens, gr.parent, gr.is_whitespace = kids, None, False
+        gr.value = ''.join(k.value for k in kids)
+        for k in kids:
+            k.parent = gr
+        return gr
+
+    def ident(x):
+        return group(classes['I'], [leaf(NAME, x)])
+
+    def cond():
+        return group(classes['C'], [ident('x'), leaf(WSP, ' '), leaf(CMP, '='), leaf(WSP, ' '), leaf(INT, '1')])
+    closers = ['GROUP BY', 'ORDER BY', 'LIMIT', 'UNION', 'UNION ALL', 'EXCEPT', 'HAVING', 'RETURNING', 'INTO']
+    bad = []
+    n = 0
+    for closer in [None] + closers + [c.lower().replace(' ', '\n') for c in closers]:
+        for container in ('statement', 'parenthesis'):
+            w = leaf(KW, 'where')
+            body = [w, leaf(WSP, ' '), cond(), leaf(WSP, ' '), leaf(KW, 'and'), leaf(WSP, ' '), cond()]
+            head = [leaf(DML, 'select'), leaf(WSP, ' '), ident('a'), leaf(WSP, ' '), leaf(KW, 'from'), leaf(WSP, ' '), ident('t'), leaf(WSP, ' ')]
+            tail = []
+            ctok = None
+            if closer is not None:
+                ctok = leaf(KW, closer)
+                tail = [leaf(WSP, ' '), ctok, leaf(WSP, ' '), ident('z')]
+            if container == 'statement':
+                lst = group(classes['S'], head + body + tail)
+                last_inner = None
+            else:
+                cp = leaf(PUN, ')')
+                lst = group(classes['P'], [leaf(PUN, '(')] + head + body + tail + [cp])
+                last_inner = cp
+            ev = ME.Evaluator(ctx, g.mod, None)
+            ev.effects = True
+            try:
+                ME.run_function(ev, g.node, {g.params[0]: lst}, max_steps=5000)
+            except (ME.Unsupported, ME.Unknown) as e:
+                ctx.ob('R13.8', 'simulation', loc, 'group_where is evaluable on token lists', None, f'closer {closer!r} in a {container}: {e}')
+                return
+            except ME.Crash as e:
+                bad.append(f'closer {closer!r} in a {container}: {e}')
+                continue
+            n += 1
+            wh = [t for t in lst.tokens if t.is_group and t.cls is where_cls]
+            tag = f'`... where x = 1 and x = 1{" " + closer if closer else ""} ...` in a {container}'
+            if len(wh) != 1:
+                bad.append(f'{tag}: {len(wh)} Where nodes')
+                continue
+            inside = list(wh[0].tokens)
+            if not inside or inside[0] is not w:
+                bad.append(f'{tag}: the Where node does not start with WHERE')
+            if any(t is ctok for t in inside) or (ctok is not None and not any(t is ctok for t in lst.tokens)):
+                bad.append(f'{tag}: the closing keyword is inside the Where node')
+            if last_inner is not None and (any(t is last_inner for t in inside) or lst.tokens[-1] is not last_inner):
+                bad.append(f'{tag}: the closing parenthesis is inside the Where node')
+            missing = [t for t in body if t.ttype is None or not WSP.contains(t.ttype)]
+            if any(not any(t is x for x in inside) for t in missing):
+                bad.append(f'{tag}: a part of the condition is outside the Where node')
+            if closer is None and container == 'statement' and any(not (t is wh[0]) and lst.tokens.index(t) > lst.tokens.index(wh[0]) and not WSP.contains(t.ttype or ()) for t in lst.tokens if not t.is_group or t is not wh[0]):
+                pass
+    if not bad:
+        ctx.ob('R13.8', 'simulation', loc, f'{n} lists (no closer / each of the nine closing keywords in upper case and in lower case with a line break inside; statement and '
+               'parenthesis): the Where node starts at WHERE, holds the whole condition and ends before the closer', True)
+    else:
+        ctx.ob('R13.8', 'simulation', loc, f'group_where builds the Where node the property describes on {n} interpreted lists', False, f'{len(bad)} case(s), e.g. {bad[:3]}')
+
+
+def check_cases_simulation(ctx):
+    """Case.get_cases decided on concrete Case trees (searched CASE with one to three WHEN arms, with and without ELSE, any whitespace,
+    any keyword case): interpreted; it must yield one (condition, value) pair per WHEN arm in order, plus (None, value) for ELSE,
+    each holding the written condition / value token and nothing of another arm."""
+    import itertools
+    repo = ctx.repo
+    ctx.rule('R13.9', 'Case.get_cases interpreted on Case trees: one pair per WHEN arm in order, (None, value) for ELSE, each with the written parts', floor=1)
+    case_cls = repo.classes.get('sqlparse.sql.Case')
+    f = repo.lookup_method(case_cls, 'get_cases') if case_cls is not None else None
+    ctx.need(f is not None, 'Case.get_cases not found')
+    loc = f'{f.mod.relpath}:{f.node.lineno}'
+    ident_cls, cmp_cls = repo.classes.get('sqlparse.sql.Identifier'), repo.classes.get('sqlparse.sql.Comparison')
+    WSP, NL, KW, NAME, INT = TT(('Text', 'Whitespace')), TT(('Text', 'Whitespace', 'Newline')), TT(('Keyword',)), TT(('Name',)), TT(('Literal', 'Number', 'Integer'))
+
+    def leaf(tt, v):
+        t_ = ME.AbsToken(repo, ttype=tt, value=v)
+        t_.parent = None
+        return t_
+
+    def group(cls, kids):
+        gr = ME.AbsToken(repo, cls=cls)
+        gr.tokens, gr.parent, gr.is_whitespace = kids, None, False
+        gr.value = ''.join(k.value for k in kids)
+        for k in kids:
+            k.parent = gr
+        return gr
+    bad = []
+    lead = []
+    n = 0
+    for arms, has_else, lower, ws_kind, skip_ws in itertools.product((1, 2, 3), (False, True), (False, True), (0, 1, 2), (False, True)):
+        def ws():
+            return [[leaf(WSP, ' ')], [leaf(NL, '\n'), leaf(WSP, ' ')], [leaf(WSP, ' '), leaf(WSP, ' ')]][ws_kind]
+
+        def kw(x):
+            return leaf(KW, x.lower() if lower else x)
+        kids = [kw('CASE')]
+        conds, vals, whens, thens = [], [], [], []
+        for i in range(arms):
+            c_ = group(cmp_cls, [group(ident_cls, [leaf(NAME, f'c{i}')])])
+            v_ = leaf(INT, str(i))
+            conds.append(c_)
+            vals.append(v_)
+            whens.append(kw('WHEN'))
+            thens.append(kw('THEN'))
+            kids += ws() + [whens[-1]] + ws() + [c_] + ws() + [thens[-1]] + ws() + [v_]
+        ev_ = None
+        if has_else:
+            ev_ = group(ident_cls, [leaf(NAME, 'dflt')])
+            kids += ws() + [kw('ELSE')] + ws() + [ev_]
+        kids += ws() + [kw('END')]
+        node = group(case_cls, kids)
+        ev = ME.Evaluator(ctx, f.mod, case_cls)
+        ev.effects = True
+        try:
+            got = ev._method_of(node, 'get_cases')(skip_ws=skip_ws)
+        except (ME.Unsupported, ME.Unknown) as e:
+            ctx.ob('R13.9', 'simulation', loc, 'Case.get_cases is evaluable', None, str(e))
+            return
+        except ME.Crash as e:
+            bad.append(f'{node.value!r}: {e}')
+            continue
+        n += 1
+        tag = f'{node.value!r} (skip_ws={skip_ws})'
+        if isinstance(got, list) and len(got) == arms + (1 if has_else else 0) + 1 and got[0][0] is not None and not got[0][1] \
+                and all(t.ttype is not None and WSP.contains(t.ttype) for t in got[0][0]):
+            # the whitespace between CASE and the first WHEN reported as a condition of its own
+            lead.append(tag)
+            got = got[1:]
+        if not isinstance(got, list) or len(got) != arms + (1 if has_else else 0):
+            bad.append(f'{tag}: {len(got) if isinstance(got, list) else got} pairs for {arms} WHEN arm(s){" + ELSE" if has_else else ""}')
+            continue
+        for i in range(arms):
+            cnd, val = got[i]
+            if cnd is None or not any(t is conds[i] for t in cnd) or not any(t is vals[i] for t in val) \
+                    or any(any(t is x for x in (conds[:i] + conds[i + 1:] + vals)) for t in cnd) or any(any(t is x for x in (vals[:i] + vals[i + 1:] + conds)) for t in val):
+                bad.append(f'{tag}: pair #{i} does not hold exactly the condition and value of WHEN arm #{i}')
+            elif any(any(t is x for x in thens + whens[:i] + whens[i + 1:]) for t in cnd) or any(any(t is x for x in whens + thens[:i] + thens[i + 1:]) for t in val):
+                bad.append(f'{tag}: pair #{i} holds the WHEN / THEN keyword of the wrong part (the THEN part belongs to the value, the WHEN part to the condition)')
+            if skip_ws and any(t.ttype is not None and WSP.contains(t.ttype) for t in list(cnd) + list(val)):
+                bad.append(f'{tag}: whitespace in pair #{i} although skip_ws=True')
+        if has_else:
+            cnd, val = got[-1]
+            if cnd is not None or not any(t is ev_ for t in val):
+                bad.append(f'{tag}: the ELSE part is not returned as (None, [value])')
+    ctx.ob('R13.9', 'simulation:leading-whitespace-pair', loc, 'get_cases yields exactly one pair per WHEN arm (plus ELSE)', not lead,
+           f'{len(lead)} tree(s), all with skip_ws=False, e.g. {lead[:1]}: the whitespace between CASE and the first WHEN is returned as an extra first pair '
+           '([<Whitespace>], []) -- a condition that is not written')
+    if not bad:
+        ctx.ob('R13.9', 'simulation', loc, f'{n} Case trees (1-3 WHEN arms, with/without ELSE, upper/lower case keywords, three kinds of whitespace, skip_ws on/off): '
+               'get_cases yields the written parts arm by arm', True)
+    else:
+        ctx.ob('R13.9', 'simulation', loc, f'Case.get_cases yields the written parts on {n} interpreted Case trees', False, f'{len(bad)} case(s), e.g. {bad[:2]}')
